@@ -372,6 +372,8 @@ func main() {
 	fmt.Fprintf(&b, "  uniqifyCaseInsensitive := %v\n", uniqifyCaseInsensitive)
 	fmt.Fprintf(&b, "  mapRanges := %s\n", leanStrList(ranges))
 	fmt.Fprintf(&b, "  paramsForMethods := %s\n", leanStrList(paramsForMethods))
+	fmt.Fprintf(&b, "  resetStale := %s\n", leanStrList(resetStale(root)))
+	fmt.Fprintf(&b, "  reloadSkeleton := %s\n", leanStrList(skeletonOf(root, "reload")))
 	// control skeletons of the functions that orchestrate Flatten (skeleton.go)
 	b.WriteString("  skeletons := [\n")
 	skNames := []string{"Flatten", "expand", "importReferences", "stripPointersAndOAIGen", "removeUnused", "removeUnusedShared"}
